@@ -18,6 +18,12 @@ package main
 //	T <api> X=<stack>/Y=<stack>[/Z=<stack>]: rec ; ...   three DISTINCT record types that all print as "main.row" but order
 //	                                     their fields differently (Z has a non-Comparable field early), sorted one after the other
 //	                                     in the same process (api sl | tl); observation "[..] | [..] | …"
+//	N <api> <cmp> <nf|nl>: rec ; ~ ; rec ...   interface{} sorts over lists WITH nil entries (~); the comparator orders nil itself
+//	                                     (nf nil first, nl nil last, non-nil by <cmp>); api = isort | iidx | iidxb | iidxc |
+//	                                     islice (fp SortSlice on []interface{}) | isortfn (fp Sort); observation: ids, ~ for nil
+//	                                     SortByIndex index comparators read the elements through: the receiver (sidx, iidx), the slice
+//	                                     the Stream was made from (sidxb, iidxb), a second Stream over that slice (sidxc, iidxc), a
+//	                                     value copy of the receiver's header (sidxh)
 //	C <api> <cmp>: rec ; rec ; ...       api = sort | slice | ssort | sidx | isort | iidx
 //	                                           (Sort, SortSlice, Stream.Sort, Stream.SortByIndex, ForInterface twins)
 //	                                     cmp = a< | a> | am | b< | ab | no   (strict weak orders, several with many ties)
@@ -236,6 +242,9 @@ func c19Run(line string) string {
 			toks = append(toks, t)
 		}
 	}
+	if len(head) == 4 && head[0] == "N" {
+		return c19RunNil(head, toks)
+	}
 	if len(head) != 3 {
 		return "bad-case"
 	}
@@ -376,29 +385,107 @@ func c19Run(line string) string {
 			return c19Ids(fpgo.SortSlice(less, recs...))
 		case "ssort":
 			return c19Ids(fpgo.StreamFromArray(recs).Sort(less).ToArray())
-		case "sidx":
-			s := fpgo.StreamFromArray(recs)
-			return c19Ids(s.SortByIndex(func(i, j int) bool { return less(s.Get(i), s.Get(j)) }).ToArray())
-		case "isort", "iidx":
+		case "sidx", "sidxb", "sidxc", "sidxh":
+			s := fpgo.StreamFromArray(recs) // does not copy: recs IS the stream's storage
+			var fn func(i, j int) bool
+			switch api {
+			case "sidx":
+				fn = func(i, j int) bool { return less(s.Get(i), s.Get(j)) }
+			case "sidxb":
+				fn = func(i, j int) bool { return less(recs[i], recs[j]) }
+			case "sidxc":
+				s2 := fpgo.StreamFromArray(recs)
+				fn = func(i, j int) bool { return less(s2.Get(i), s2.Get(j)) }
+			default:
+				hdr := *s
+				fn = func(i, j int) bool { return less(hdr[i], hdr[j]) }
+			}
+			return c19Ids(s.SortByIndex(fn).ToArray())
+		case "isort", "iidx", "iidxb", "iidxc":
 			arr := make([]interface{}, len(recs))
 			for k := range recs {
 				arr[k] = recs[k]
 			}
-			s := fpgo.StreamForInterface.FromArray(arr)
-			var res *fpgo.StreamForInterfaceDef
-			if api == "isort" {
-				res = s.Sort(func(x, y interface{}) bool { return less(x.(c19Rec), y.(c19Rec)) })
-			} else {
-				res = s.SortByIndex(func(i, j int) bool { return less(s.Get(i).(c19Rec), s.Get(j).(c19Rec)) })
-			}
-			out := make([]c19Rec, 0, len(recs))
-			for _, v := range res.ToArray() {
-				out = append(out, v.(c19Rec))
-			}
-			return c19Ids(out)
+			return c19IfaceSort(api, arr, func(x, y interface{}) bool { return less(x.(c19Rec), y.(c19Rec)) })
 		}
+	case "N":
+		return "bad-case" // handled before the records are parsed
 	}
 	return "bad-case"
+}
+
+// interface{} twins; elements are c19Rec values or nil
+func c19IfaceSort(api string, arr []interface{}, less func(x, y interface{}) bool) string {
+	var res []interface{}
+	switch api {
+	case "isort":
+		res = fpgo.StreamForInterface.FromArray(arr).Sort(less).ToArray()
+	case "iidx":
+		s := fpgo.StreamForInterface.FromArray(arr)
+		res = s.SortByIndex(func(i, j int) bool { return less(s.Get(i), s.Get(j)) }).ToArray()
+	case "iidxb":
+		s := fpgo.StreamForInterface.FromArray(arr)
+		res = s.SortByIndex(func(i, j int) bool { return less(arr[i], arr[j]) }).ToArray()
+	case "iidxc":
+		s := fpgo.StreamForInterface.FromArray(arr)
+		s2 := fpgo.StreamForInterface.FromArray(arr)
+		res = s.SortByIndex(func(i, j int) bool { return less(s2.Get(i), s2.Get(j)) }).ToArray()
+	case "islice":
+		res = fpgo.SortSlice(less, arr...)
+	case "isortfn":
+		fpgo.Sort(less, arr)
+		res = arr
+	default:
+		return "bad-case"
+	}
+	var sb strings.Builder
+	sb.WriteByte('[')
+	for i, v := range res {
+		if i > 0 {
+			sb.WriteByte(' ')
+		}
+		if v == nil {
+			sb.WriteByte('~')
+		} else {
+			sb.WriteString(strconv.Itoa(v.(c19Rec).ID))
+		}
+	}
+	sb.WriteByte(']')
+	return sb.String()
+}
+
+func c19RunNil(head []string, toks []string) string {
+	if len(head) != 4 || (head[3] != "nf" && head[3] != "nl") {
+		return "bad-case"
+	}
+	base := c19Cmp(head[2])
+	if base == nil {
+		return "bad-case"
+	}
+	nilFirst := head[3] == "nf"
+	arr := make([]interface{}, len(toks))
+	for k, t := range toks {
+		if t == "~" {
+			continue
+		}
+		r, ok := c19ParseRec(k, t)
+		if !ok {
+			return "bad-case"
+		}
+		arr[k] = r
+	}
+	less := func(x, y interface{}) bool {
+		switch {
+		case x == nil && y == nil:
+			return false
+		case x == nil:
+			return nilFirst
+		case y == nil:
+			return !nilFirst
+		}
+		return base(x.(c19Rec), y.(c19Rec))
+	}
+	return c19IfaceSort(head[1], arr, less)
 }
 
 // ---------------------------------------------------------------------------------------------
@@ -689,7 +776,8 @@ func c19RunOrdered(api, ty string, toks []string) string {
 
 var c19Fields = []byte{'A', 'B', 'C', 'D'}
 var c19DescApis = []string{"sl", "sb", "tl", "bs", "slp", "bsp"}
-var c19CmpApis = []string{"sort", "slice", "ssort", "sidx", "isort", "iidx"}
+var c19CmpApis = []string{"sort", "slice", "ssort", "sidx", "isort", "iidx", "sidxb", "sidxc", "sidxh", "iidxb", "iidxc"}
+var c19NilApis = []string{"isort", "iidx", "iidxb", "iidxc", "islice", "isortfn"}
 var c19Cmps = []string{"a<", "a>", "am", "b<", "ab", "no"}
 var c19OrdApis = []string{"asc", "desc", "so+", "so-"}
 
@@ -1153,19 +1241,54 @@ func c19Gen(tier string, rng *rand.Rand, emit func(string)) map[string]interface
 	if !thorough {
 		c19Lists(cspace, 4, func(body string) {
 			if strings.Count(body, ";") == 3 {
-				emit("C " + c19CmpApis[rot%6] + " " + c19Cmps[(rot/6)%6] + ": " + body)
+				emit("C " + c19CmpApis[rot%len(c19CmpApis)] + " " + c19Cmps[(rot/len(c19CmpApis))%6] + ": " + body)
 				rot++
 				counts["exhC"]++
 			}
 		})
 	}
-	nRandC := 1200
+	nRandC := 3000
 	if thorough {
 		nRandC = 12000
 	}
 	for i := 0; i < nRandC; i++ {
-		emit("C " + c19CmpApis[rng.Intn(6)] + " " + c19Cmps[rng.Intn(6)] + ": " + randList(nil))
+		emit("C " + c19CmpApis[rng.Intn(len(c19CmpApis))] + " " + c19Cmps[rng.Intn(6)] + ": " + randList(nil))
 		counts["randomC"]++
+	}
+
+	// (5b) interface{} sorts over lists with nil entries; the comparator orders nil first / last
+	nspace := []string{"~", "0,=a,0,=x", "1,=ab,0,=x", "2,=a,0,=x"}
+	maxLenN := 4
+	for _, api := range c19NilApis {
+		for _, cmp := range []string{"a<", "a>", "am", "b<", "no"} {
+			for _, mode := range []string{"nf", "nl"} {
+				counts["exhN"] += c19Lists(nspace, maxLenN, func(body string) {
+					emit("N " + api + " " + cmp + " " + mode + ": " + body)
+				})
+			}
+		}
+	}
+	nRandN := 2500
+	if thorough {
+		nRandN = 20000
+	}
+	for i := 0; i < nRandN; i++ {
+		body := randList(nil)
+		if body != "" {
+			parts := strings.Split(body, " ; ")
+			for j := range parts {
+				if rng.Intn(4) == 0 {
+					parts[j] = "~"
+				}
+			}
+			body = strings.Join(parts, " ; ")
+		}
+		mode := "nf"
+		if rng.Intn(2) == 0 {
+			mode = "nl"
+		}
+		emit("N " + c19NilApis[rng.Intn(len(c19NilApis))] + " " + c19Cmps[rng.Intn(6)] + " " + mode + ": " + body)
+		counts["randomN"]++
 	}
 
 	// (6) SortOrdered*: ints and strings
